@@ -38,18 +38,18 @@ RULE = ('(1) DocTest.run on generated modules: terminating kind (pass, output mi
         'all skipped [native and pytest mode], import failure / SystemExit / KeyboardInterrupt while importing, SystemExit, '
         'KeyboardInterrupt, capture stream closed by the doctest) x position of the terminating part (first/middle/last) x on_error x '
         'effects of every part (print, replace sys.stdout, simplefilter, rebind warnings.filters, replace showwarning, top-level await, '
-        'sys.path edits) x module-level sys.path edits (also with warnings turned into errors): identity of sys.stdout/sys.stderr/warnings.filters/showwarning, copies of '
+        'sys.path edits, REQUIRES(module:…) lookups of never-seen existing/missing modules) x shape of sys.path ("" in front / middle / end, ".", duplicates; cwd = scratch dir) x module-level sys.path edits (also with warnings turned into errors): identity of sys.stdout/sys.stderr/warnings.filters/showwarning, copies of '
         'sys.path and filters, running-loop check, before and after; after-state vs model op `runbracket`, and before = after whenever '
         'no body edits sys.path; (2) import_module_from_path: module kind x index (-1, 0, inside, end, beyond, very negative) x warnings-as-errors x '
         'module-level sys.path edits vs op `ppc`; (3) PythonPathContext histories on a synthetic sys.path (nested contexts, re-entered '
-        'objects, inserts/removes in between) vs op `ppc`; (4) runner.doctest_module on [pass, TERMINATOR, pass] modules. non-trivial = '
+        'objects, inserts/removes in between) vs op `ppc`; (4) runner.doctest_module on [pass, TERMINATOR, pass] modules; (5) every by-name lookup API (_module_exists, modname_to_modpath, is_modname_importable, _rectify_to_modpath, _is_requires_satisfied, doctest_module given a module NAME) x shape of sys.path x module exists or not, always a never-seen name: exact sys.path list, os.environ, cwd, sys.argv, sys.modules, streams and filters before = after. non-trivial = '
         'every case with a terminator, an effect or an edit; distinct = distinct specification')
 ASSUMPTIONS = ['`with` runs __exit__ for every ending, including BaseException (CPython)',
                'asyncio.run closes the loop it creates (checked after every run)']
 
 KINDS = ['pass', 'mismatch', 'exception', 'expected', 'exit', 'sysexit', 'kbd', 'close']
 TERMINAL = ('exception', 'exit', 'sysexit', 'kbd', 'close')     # kinds whose last line has no want
-EFFECTS = ['print', 'so.10', 'so.11', 'af.1', 'rf.50', 'sw.51', 'await']
+EFFECTS = ['print', 'so.10', 'so.11', 'af.1', 'rf.50', 'sw.51', 'await', 'rq:M', 'rq:E', 'rqi:M']
 PATH_EFFECTS = ['pa.%s' % enc('zz_a'), 'pi.0.%s' % enc('zz_b'), 'pp']
 TOPS = [[], [], ['so.12'], ['so.12', 'pa.%s' % enc('zz_v')], ['pa.%s' % enc('zz_t')], ['pi.0.%s' % enc('zz_u')], ['pp'], ['pi.0.%s' % enc('zz_u'), 'pa.%s' % enc('zz_t')]]
 
@@ -77,7 +77,14 @@ def matrix_specs(rng, quick):
                         parts.append({'effects': eff, 'kind': kind if k == pos else rng.choice(['pass', 'pass', 'expected'])})
                     if kind in TERMINAL:
                         parts = parts[:pos + 1]      # later statements would be merged into the same part
-                    specs.append({'parts': parts, 'on_error': oe, 'top': rng.choice(TOPS), 'import_end': 'n'})
+                    specs.append({'parts': parts, 'on_error': oe, 'top': rng.choice(TOPS), 'import_end': 'n',
+                                  'path_variant': rng.choice(cb.PATH_VARIANTS)})
+    # a by-name lookup of a never-seen module (REQUIRES(module:…)) under every shape of sys.path
+    for pv in cb.PATH_VARIANTS:
+        for eff in (['rq:M'], ['rq:E'], ['rqi:M'], ['rqi:E', 'so.10']):
+            for kind in ('pass', 'exception'):
+                specs.append({'parts': [{'effects': eff, 'kind': kind}, {'effects': ['print'], 'kind': 'pass'}][:1 if kind == 'exception' else 2],
+                              'on_error': 'return', 'top': [], 'import_end': 'n', 'path_variant': pv})
     for ie in ('e', 's', 'k'):
         for oe in ('return', 'raise'):
             for top in TOPS[1:]:
@@ -106,6 +113,7 @@ def random_spec(rng):
             break
     return {'parts': parts, 'on_error': rng.choice(['return', 'raise']), 'top': rng.choice(TOPS),
             'import_end': rng.choice(['n'] * 12 + ['e', 's', 'k']), 'allskip': rng.random() < 0.04,
+            'path_variant': rng.choice(cb.PATH_VARIANTS + [None] * 4),
             'mode': rng.choice(['native'] * 5 + ['pytest'])}
 
 
@@ -115,12 +123,34 @@ def edits_path(spec):
     return any(e.split('.')[0] in ('pa', 'pi', 'pp', 'pr') for p in spec['parts'] for e in p['effects'])
 
 
+def _resolve_lookups(spec, tmpdir):
+    """the symbolic effects rq:M / rq:E / rqi:M / rqi:E (a REQUIRES(module:…) directive naming a Missing / an Existing
+    module) get a module name this process has never looked up — at EVERY evaluation, because the process-wide
+    directive._MODNAME_EXISTS_CACHE answers a second lookup of a name without touching anything"""
+    names = []
+    parts = []
+    for p in spec['parts']:
+        eff = []
+        for e in p['effects']:
+            if e.startswith('rq'):
+                kind, what = e.split(':')
+                n = cb.make_existing(tmpdir) if what == 'E' else cb.fresh_name('q')
+                names.append(n)
+                e = '%s:%s' % (kind, n)
+            eff.append(e)
+        parts.append(dict(p, effects=eff))
+    return dict(spec, parts=parts, lookup_only=names)
+
+
 def eval_doctest_spec(spec, tmpdir):
     """returns (result dict, list of property failures on the real code)"""
-    r = cb.run_doctest_case(spec, tmpdir, _name('d'))
+    r = cb.run_doctest_case(_resolve_lookups(spec, tmpdir), tmpdir, _name('d'))
     fails = []
     if r['loop']:
         fails.append({'what': 'an event loop is left running', 'observed': 'asyncio._get_running_loop() is not None'})
+    for x in r['extras']:
+        fails.append({'what': 'process-global state other than streams/filters/sys.path changed during DocTest.run', 'observed': x,
+                      'expected': 'os.environ, cwd, sys.argv unchanged; looked-up modules not imported'})
     if any(t.startswith('so.') for t in spec.get('top', [])) and spec.get('import_end', 'n') != 'n' and not spec.get('allskip'):
         # the module replaces sys.stdout and then fails to import: no doctest part is ever captured, the module's own
         # side effect stays (outside the property's quantifier); compared with the model only
@@ -262,6 +292,26 @@ def eval_runner_kind(kind, tmpdir):
     return {'source': src, 'exc': repr(exc)[:200] if exc else None, 'after': after}, fails
 
 
+def lookup_specs():
+    return [{'action': a, 'path_variant': pv, 'exists': ex} for a in cb.LOOKUP_ACTIONS for pv in cb.PATH_VARIANTS for ex in (False, True)]
+
+
+def eval_lookup_spec(spec, tmpdir):
+    r = cb.run_lookup_case(spec, tmpdir)
+    fails = []
+    if r['path_after'] != r['path_before']:
+        fails.append({'what': 'sys.path (exact list) differs after a by-name module lookup', 'observed': r['path_after'],
+                      'expected': r['path_before']})
+    a = r['after'].rsplit(' path=', 1)[0]
+    b = r['before'].rsplit(' path=', 1)[0]
+    if a != b:
+        fails.append({'what': 'stdout/stderr/warning filters differ after a by-name module lookup', 'observed': a, 'expected': b})
+    for x in r['extras']:
+        fails.append({'what': 'process-global state changed during a by-name module lookup', 'observed': x,
+                      'expected': 'os.environ, cwd, sys.argv unchanged; looked-up modules not imported'})
+    return r, fails
+
+
 @contextlib.contextmanager
 def _scratch():
     d = tempfile.mkdtemp(prefix='xdocverif-')
@@ -336,6 +386,17 @@ def _shard(args):
                 tag('ppc:' + a.split('/')[0].split('=')[0])
             if real != m:
                 out['dis'].append({'suite': 'ppc-history', 'input': {'kind': 'ppc', 'path': p, 'events': ev}, 'model': m, 'impl': real})
+        # (5) by-name lookups of never-seen modules: every API x every shape of sys.path x module exists or not
+        for i, ls in enumerate(lookup_specs()):
+            if i % nshards != shard:
+                continue
+            r, fails = eval_lookup_spec(ls, d)
+            count('lookup')
+            out['nontriv'].add(hash(repr(ls)))
+            tag('lookup:%s:%s' % (ls['action'], 'raised' if r['exc'] else 'ok'))
+            for f in fails:
+                out['exp'].append({'suite': 'lookup-state', 'input': {'kind': 'lookup', 'spec': ls}, 'expected': f.get('expected'),
+                                   'impl': f.get('observed'), 'why': f['what']})
         # (4) runner
         if shard < len(RUNNER_KINDS):
             kind = RUNNER_KINDS[shard]
@@ -404,6 +465,13 @@ def _search_shard(args):
             if fails:
                 hits.append({'kind': 'runner', 'input': {'kind': 'runner', 'terminator': RUNNER_KINDS[shard]}, 'module': r['source'],
                              'failure': fails[0]})
+        for i, ls in enumerate(lookup_specs()):
+            if i % 16 == shard:
+                r, fails = eval_lookup_spec(ls, d)
+                if fails:
+                    hits.append({'kind': 'lookup', 'input': {'kind': 'lookup', 'spec': ls}, 'failure': fails[0], 'looked_up': r['name'],
+                                 'result': r['result'], 'exception': r['exc']})
+                    break
     return hits
 
 
@@ -464,6 +532,10 @@ def replay(ctx, failing):
                                                                     r['real_end'], r['exc'] or ''))
             print('state before: ' + r['before'].rsplit(' path=', 1)[0])
             print('state after : ' + r['after'].rsplit(' path=', 1)[0])
+            if inp['spec'].get('path_variant'):
+                from ..codec import dec_list
+                print('sys.path shape %r, cwd = scratch directory\nsys.path before: %r\nsys.path after : %r' % (
+                    inp['spec']['path_variant'], r['path_before'], dec_list(r['after'].rsplit(' path=', 1)[1])))
         elif inp['kind'] == 'import':
             with contextlib.redirect_stdout(buf):
                 spec, r, fails = eval_import_spec(inp['spec'], d, unrestricted=True)
@@ -471,6 +543,13 @@ def replay(ctx, failing):
             print('result: %s %s' % (r['result'], r['exc'] or ''))
             print('sys.path entries added: %r removed: %r' % ([p for p in r['after_path'] if p not in r['before_path']],
                                                              [p for p in r['before_path'] if p not in r['after_path']]))
+        elif inp['kind'] == 'lookup':
+            with contextlib.redirect_stdout(buf):
+                r, fails = eval_lookup_spec(inp['spec'], d)
+            print('by-name lookup %r of the never-seen module %r (%s), sys.path shape %r, cwd = scratch directory' % (
+                inp['spec']['action'], r['name'], 'exists' if inp['spec'].get('exists') else 'does not exist', inp['spec'].get('path_variant')))
+            print('result: %r %s' % (r['result'], r['exc'] or ''))
+            print('sys.path before: %r\nsys.path after : %r' % (r['path_before'], r['path_after']))
         elif inp['kind'] == 'runner':
             with contextlib.redirect_stdout(buf):
                 r, fails = eval_runner_kind(inp['terminator'], d)
